@@ -22,6 +22,7 @@ def run(ctx):
     s2k_usage_tables(ctx, P)
     unlock(ctx, P)
     lock(ctx, P)
+    lock_unlock_agree(ctx, P)
     from_slice(ctx, P)
     # the password-to-key derivation hashes the whole password (shared with C12): a truncated or mis-ordered S2K input lets other passwords unlock
     from rules import c12
@@ -165,6 +166,65 @@ def lock(ctx, P):
     callers = sorted(p for p, r in ctx.f.bodies.items() if ctx.wrap(r).calls(r'plain_secret::s2k_usage_aead$'))
     ctx.check(P + ':who-calls-usage-aead', 'R-who', 's2k_usage_aead is the single derivation shared by lock and unlock',
               set(callers) == {'types::params::plain_secret::PlainSecretParams::encrypt', U}, table=callers)
+
+
+def lock_unlock_agree(ctx, P):
+    """What the lock side produces the unlock side must accept (R-sib over PlainSecretParams::encrypt / EncryptedSecretParams::unlock):
+    (1) both derive the key with the cipher's key_size(), never a constant; (2) per S2K usage arm, the S2K specifier kinds under which
+    the key derivation is reached on the lock side are a subset of those on the unlock side; (3) the version-6 restriction (a
+    rejecting test of the specifier kind and of the usage that is control-dependent on version == V6) exists on both sides with the
+    same accepted specifier kinds."""
+    from rules.common import enum_switch_info, edge_variants
+    lb = ctx.body('types::params::plain_secret::PlainSecretParams::encrypt')
+    ub = ctx.body(U)
+    if lb is None or ub is None:
+        return
+    ALL = None
+    def table(b):
+        dom = b.dominators()
+        t = {}
+        sizes = []
+        for i, tt in b.calls(r'StringToKey::derive_key$'):
+            ac = arm_context(b, i, dom)
+            use = [vs for a, vs in ac if a == 'S2kParams']
+            kinds = [vs for a, vs in ac if a == 'StringToKey']
+            for u in (use[-1] if use else ['?']):
+                t[u] = sorted(kinds[-1]) if kinds else ALL
+            sizes.append(has_origin(b.operand_origins(tt['args'][2]), r'call:.*SymmetricKeyAlgorithm::key_size$') and 'k' not in tt['args'][2])
+        return t, sizes
+    lt, ls = table(lb)
+    ut, us = table(ub)
+    ctx.check(P + ':lock-unlock:key-size-from-cipher', 'R-sib', 'lock and unlock derive the S2K key with the length of the cipher in use (sym_alg.key_size()), not a constant',
+              bool(ls) and bool(us) and all(ls) and all(us), function=lb.path)
+    bad = {}
+    for u, kinds in lt.items():
+        if u not in ut:
+            continue
+        if ut[u] is not ALL and (kinds is ALL or not set(kinds) <= set(ut[u])):
+            bad[u] = dict(lock=kinds or 'any', unlock=ut[u])
+    ctx.check(P + ':lock-unlock:specifier-kinds', 'R-sib', 'per S2K usage, the specifier kinds the lock side accepts are accepted by the unlock side (a key locked with the right password can be unlocked)',
+              not bad and bool(lt) and bool(ut), function=lb.path, table=dict(lock=lt, unlock=ut), missing=bad or None)
+    V6 = r'agg:types::packet::KeyVersion::V6$'
+    def v6_kinds(b):
+        derive = set(call_blocks(b, r'StringToKey::derive_key$'))
+        out = None
+        for g, t in b.switches():
+            info = enum_switch_info(b, g)
+            if not info or not info[0].endswith('StringToKey'):
+                continue
+            if not guard_switches(b, [g], [V6]):
+                continue
+            can = b.can_reach(derive)
+            acc = set()
+            for j, _ in b.succ(g):
+                if j in can:
+                    acc |= set(edge_variants(b, g, j) or [])
+            out = sorted(acc) if out is None else sorted(set(out) & acc)
+        return out
+    lk, uk = v6_kinds(lb), v6_kinds(ub)
+    ctx.check(P + ':lock-unlock:v6-restriction', 'R-sib', 'the version-6 restriction on S2K specifier kinds is applied when locking exactly as when unlocking',
+              lk is not None and uk is not None and lk == uk, function=lb.path, table=dict(lock=lk, unlock=uk),
+              missing=None if (lk is not None and lk == uk) else 'the lock side accepts v6 / specifier combinations that unlock refuses (lock=%s unlock=%s)' % (lk, uk))
 
 
 def from_slice(ctx, P):
